@@ -1487,7 +1487,59 @@ def _none_subject_kind(meth, selfn, text):
     return "?"
 
 
+class _GetattrConst(ast.NodeTransformer):
+    """getattr(X, 'name') with a constant name and no default -> X.name"""
+
+    def visit_Call(self, node):
+        self.generic_visit(node)
+        if isinstance(node.func, ast.Name) and node.func.id == "getattr" \
+                and len(node.args) == 2 \
+                and isinstance(node.args[1], ast.Constant) \
+                and isinstance(node.args[1].value, str):
+            return ast.copy_location(
+                ast.Attribute(node.args[0], node.args[1].value, ast.Load()),
+                node)
+        return node
+
+
+def _specialise_delegation(obj, meth):
+    """a validator that only delegates - `return self._h(<consts>, value,
+    ...)` - is replaced by the helper's body specialised for those arguments
+    (the helper may have early returns, which statement inlining refuses)"""
+    import copy
+    from ..pyfacts import _Renamer
+    body = [s_ for s_ in meth.body if not (
+        isinstance(s_, ast.Expr) and isinstance(s_.value, ast.Constant))]
+    if len(body) != 1 or not isinstance(body[0], ast.Return) \
+            or not isinstance(body[0].value, ast.Call):
+        return meth
+    call = body[0].value
+    selfn = meth.args.args[0].arg
+    f = call.func
+    if not (isinstance(f, ast.Attribute) and isinstance(f.value, ast.Name)
+            and f.value.id == selfn and f.attr in obj.methods
+            and obj.methods[f.attr] is not None) or call.keywords:
+        return meth
+    helper = obj.methods[f.attr]
+    hps = [a.arg for a in helper.args.args]
+    if len(hps) != len(call.args) + 1 or helper.args.vararg \
+            or helper.args.kwarg:
+        return meth
+    if not all(isinstance(a, (ast.Name, ast.Constant)) for a in call.args):
+        return meth
+    mapping = {hps[0]: ast.Name(selfn, ast.Load())}
+    mapping.update(dict(zip(hps[1:], call.args)))
+    new = copy.deepcopy(helper)
+    new.body = [_GetattrConst().visit(_Renamer(mapping).visit(s_))
+                for s_ in new.body]
+    new.name = meth.name
+    new.args = copy.deepcopy(meth.args)
+    ast.fix_missing_locations(new)
+    return new
+
+
 def _check_validator_method(res, mod, obj, meth, inner, key):
+    meth = _specialise_delegation(obj, meth)
     ps = [a.arg for a in meth.args.args]
     selfn, valn = ps[0], ps[1]
     qual = f"{obj.name}.{meth.name}"
@@ -1501,6 +1553,10 @@ def _check_validator_method(res, mod, obj, meth, inner, key):
     for ret, facts, nid in fl.returns:
         v = ret.value
         k2 = f"{key}:{meth.name}:return:{norm(v) if v else None}"
+        # `X is not None` found false is `X is None` found true
+        facts = {("T", f[1][:-len(" is not None")] + " is None")
+                 if f[0] == "F" and f[1].endswith(" is not None") else f
+                 for f in facts}
         if isinstance(v, ast.Name) and v.id == valn:
             none_fact = any(f[0] == "T" and f[1].endswith(" is None")
                             for f in facts)
